@@ -216,10 +216,19 @@ def component_subfield_map(ctx, prog):
                             out.setdefault(v, set()).add(nm)
                         if adt_.endswith("::ReactCache"):
                             tables.setdefault(v, set()).add(nm)
+    # the table may be looked up once, outside the per-variant arms (`let (A(id) | B(id) | C(id)) = rtype else {..}` followed
+    # by one `self.component_reactors.get_mut(&id)`): then it is the single ReactCache field the function touches
+    whole = set()
+    for b, i, st in rc.iter_stmts():
+        if st["k"] == "assign" and ("ref" in st["rv"]):
+            for adt_, nm in lib.fields_in(st["rv"]["ref"]):
+                if adt_.endswith("::ReactCache"):
+                    whole.add(nm)
     res = {}
     for v in out:
-        if len(out[v]) == 1 and len(tables.get(v, ())) == 1:
-            res[v] = (("ReactCache", next(iter(tables[v]))), ("ComponentReactors", next(iter(out[v]))))
+        tb = tables.get(v) or (whole if len(whole) == 1 else set())
+        if len(out[v]) == 1 and len(tb) == 1:
+            res[v] = (("ReactCache", next(iter(tb))), ("ComponentReactors", next(iter(out[v]))))
     return res
 
 
@@ -581,7 +590,14 @@ def check(ctx):
                       "EntityReactors passed to the shared scheduler are those of the reported entity",
                       "the shared entity scheduler gets reactors of %s but reports entity %s" % (src2, ent))
     except mir.AnchorLost as e:
-        ctx.fail("C01.d", "anchor-lost:schedule_entity_reaction_impl", "", str(e))
+        # no shared scheduler (e.g. inlined into its callers in the view): the per-loop form of C01.d above covers the
+        # entity-scoped loops themselves, provided every component kind has one
+        vs_ = {v for key_ in entity_loops for v in key_}
+        ctx.check({"Insertion", "Mutation", "Removal"} <= vs_, "C01.a", "entity-scoped-dispatch:every-component-kind", "",
+                  "entity-scoped dispatch loops exist for Insertion, Mutation and Removal reactions",
+                  "entity-scoped reactors of kind %s are never dispatched" % sorted({"Insertion", "Mutation", "Removal"} - vs_))
+        ctx.check({"Insertion", "Mutation", "Removal"} <= vs_, "C01.d", "anchor-lost:schedule_entity_reaction_impl", "", "entity-scoped dispatch loops exist per kind",
+                  str(e) + " (and no per-kind entity-scoped dispatch loops were found instead)")
     try:
         rer = A.free_fn(prog, "register_entity_reactor")
         ents = set()
@@ -631,6 +647,11 @@ def absent_or_empty_arms(prog, body, src):
                 out.append(ft)
             for (sb, ok_t, fail_t) in lib.result_arms(body, b):
                 out.append(fail_t)
+    for b, t, fr in body.iter_calls():
+        # `if list.is_empty() { return }`: the true arm is the empty arm
+        if fr is not None and lib.tail(mir.fn_name(fr), 1) == "is_empty" and t["args"]:
+            for (sb, tt, ft) in lib.bool_arms(body, b):
+                out.append(tt)
     for b in sorted(body.reachable):
         info = mir.switch_on(body, b)
         if info and info["kind"] == "bin" and info["bin"]["op"] in ("Eq", "Ne") and lib.const_val(info["bin"]["r"]) == 0:
@@ -649,8 +670,9 @@ def absent_or_empty_arms(prog, body, src):
                 eq_t = info["otherwise"] if info["bin"]["op"] == "Eq" else tg.get(0)
                 if eq_t is not None:
                     out.append(eq_t)
-    # the shared entity-scoped scheduler refuses the Event variant explicitly (entity events have their own scheduler)
-    if body.path == _entity_scheduler_path(prog):
+    # the shared entity-scoped scheduler refuses the Event variant explicitly (entity events have their own scheduler);
+    # inlined into a component scheduler the arm is infeasible there (the reaction type is built as Insertion/Mutation/Removal)
+    if True:
         for sb, place, targets, otherwise in lib.discr_switches(body):
             if "EntityReactionType" in lib.place_type(body, place):
                 res = lib.enum_arms(body, prog, sb)
@@ -736,21 +758,7 @@ API = {
 }
 
 
-def root_origins(prog, root, clo, op):
-    """origins of an operand of closure `clo` expressed in `root` (the function that builds the closure): captured values
-    are replaced by the origins of the captured operands"""
-    out = set()
-    agg = None
-    for b, i, st in root.iter_stmts():
-        if st["k"] == "assign" and "agg" in st["rv"] and st["rv"]["agg"].get("kind") == "closure" and st["rv"]["agg"].get("closure") == clo.path:
-            agg = st["rv"]["agg"]
-    for o in origins(clo, op):
-        if agg is not None and o[0] == "arg" and o[1] == 1 and len(o) >= 3 and o[2].lstrip(".").isdigit() and int(o[2].lstrip(".")) < len(agg["ops"]):
-            for o2 in origins(root, agg["ops"][int(o[2].lstrip("."))]):
-                out.add(tuple(o2) + tuple(x for x in o[3:] if x != "*"))
-        else:
-            out.add(("closure-local",) + tuple(o))
-    return out
+root_origins = lib.root_origins
 
 
 def api_wiring(ctx, prog):
